@@ -6,6 +6,7 @@ import JobShopModel.Features
 import JobShopModel.Generator
 import JobShopModel.Viz
 import JobShopModel.Env
+import JobShopModel.CpSat
 /-!
 # Line-protocol driver for the executable model
 
@@ -510,6 +511,21 @@ def parseEnvCfg (ts : List String) : Option EnvCfg :=
     | _, _ => none
   | _ => none
 
+def fmtCpModel (m : CpModel) : String :=
+  let doms := match m.doms with
+    | [] => "vars 0"
+    | d :: _ => if m.doms.all (· == d) then s!"vars {m.doms.length} dom {d.1} {d.2}"
+                else "vars " ++ " ".intercalate (m.doms.map fun d => s!"{d.1}..{d.2}")
+  let idxOf (iv : Itv) : String := match m.cons.findIdx? (· == CpCon.interval iv) with | some i => toString i | none => "?"
+  let cons := m.cons.map fun c => match c with
+    | .lin terms lo hi =>
+      "lin " ++ " ".intercalate (terms.map fun t => s!"{t.1}*{t.2}") ++ " in " ++
+        (match lo with | some l => toString l | none => "-inf") ++ s!" {hi}"
+    | .interval iv => s!"itv {iv.1} {iv.2.1} {iv.2.2}"
+    | .noOverlap ivs => "noov " ++ " ".intercalate (ivs.map idxOf)
+    | .linMax t es => s!"linmax {t} : {fmtNats es}"
+  doms ++ " | " ++ " | ".intercalate cons ++ s!" | min {m.objective}"
+
 def fmtBars (bs : List Bar) : String :=
   lst (" ".intercalate (bs.map fun b => s!"{b.y}:{b.x}:{b.width}:{b.job}"))
 
@@ -611,6 +627,17 @@ def stepAll (d : DW) (line : String) : DW × String :=
   | ["mstep", j, mm] => (match d.menv, j.toNat?, mm.toInt? with
      | some m, some j, some mm => let (m', o) := m.step j mm; ({ d with menv := some m' }, fmtStepOut m'.env.w.cfg.I o)
      | _, _, _ => (d, "bad-op"))
+  | ["cpnew"] => (d, "ok")
+  | ["cpsolve"] => (d, "bad-op")
+  | ["cpmodel"] => (d, fmtCpModel (cpModel d.w.cfg.I))
+  | "cpsched" :: rest =>
+    (match ints? rest with
+     | some vals =>
+       let v : Nat → Int := fun i => vals.getD i 0
+       (match cpResult d.w.cfg.I v with
+        | some (S, mk) => (d, s!"ok {" | ".intercalate (S.map fun ms => " ".intercalate (ms.map (fmtSOp d.w.cfg.I)))} ; reported {mk} ; makespan {scheduleMakespan S}")
+        | none => (d, "raise"))
+     | none => (d, "bad-op"))
   | ["bars"] => (d, fmtBars (bars d.w.s) ++ " ; legend " ++ lst (fmtNats (legendJobs d.w.s)))
   | ["ticks", x, n] =>
     let xlim : Option Nat := if x == "-" then some (makespan d.w.s).toNat else x.toNat?
